@@ -777,7 +777,7 @@ theorem C04_trigger_tx_any_state (s s' : Sys) (sender : Addr) (funds : List (Den
     s'.hub.bBond + s'.hub.sBond ≤ totalDelegated s' := by
   have inv : PInv s s [.wasm sender hubA (.hub hm) funds] :=
     ⟨c, SamePools.refl s, btok, stok, bwf, swf, bhub, shub, [], sender, hm, funds, rfl, AllStill.nil, hp⟩
-  exact reported_conclusion st0 s' (pending_run s st0 hst0 btok stok hd hz hz0 backB backS 400 s _ s' inv hx)
+  exact reported_conclusion st0 s' (pending_run s st0 c hst0 btok stok hd hz hz0 backB backS 400 s _ s' inv hx)
 
 /-- **unbond and convert of either token, from any state** -/
 theorem C04_unbond_convert_tx_any_state (s s' : Sys) (sender tokA : Addr) (funds : List (Denom × Nat)) (tm : TokMsg)
@@ -808,7 +808,7 @@ theorem C04_unbond_convert_tx_any_state (s s' : Sys) (sender tokA : Addr) (funds
       intro pre u a k tk sp hsub hpre
       have inv : PInv s s1 (subs ++ []) :=
         ⟨cok, sp, a1, a2, a3, a4, a5, a6, pre, tk, .receive u a k, [], by rw [hsub]; simp, hpre, Or.inr (Or.inr ⟨u, a, k, rfl⟩)⟩
-      exact reported_conclusion st0 s' (pending_run s st0 hst0 btok stok hd hz hz0 backB backS 399 s1 _ s' inv hx)
+      exact reported_conclusion st0 s' (pending_run s st0 c hst0 btok stok hd hz hz0 backB backS 399 s1 _ s' inv hx)
     cases handle_touch s s1 _ subs h1 with
     | none h hm' _ _ =>
       rcases hm' with hm' | ⟨a, b, c', d, heq, ht⟩
@@ -876,7 +876,7 @@ theorem C04_pricing_op_never_lowers_rates_any_state (s : Sys) (m : Msg) (hop : P
       rcases hop with ⟨sender, hm, funds, rfl, ht⟩ | ⟨sender, tokA, tm, funds, rfl, htok, hsend⟩
       · have inv : PInv s s [.wasm sender hubA (.hub hm) funds] :=
           ⟨c, SamePools.refl s, btok, stok, bwf, swf, bhub, shub, [], sender, hm, funds, rfl, AllStill.nil, ht⟩
-        exact pending_run s st0 hst0 btok stok hd hz hz0 backB backS 400 s _ s' inv hrun
+        exact pending_run s st0 c hst0 btok stok hd hz hz0 backB backS 400 s _ s' inv hrun
       · simp only [Sys.run] at hrun
         split at hrun
         · cases hrun
@@ -895,7 +895,7 @@ theorem C04_pricing_op_never_lowers_rates_any_state (s : Sys) (m : Msg) (hop : P
             have inv : PInv s s1 (subs ++ []) :=
               ⟨cok, sp, a1, a2, a3, a4, a5, a6, pre, tk, .receive u a k, [], by rw [hsub]; simp, hpre,
                 Or.inr (Or.inr ⟨u, a, k, rfl⟩)⟩
-            exact pending_run s st0 hst0 btok stok hd hz hz0 backB backS 399 s1 _ s' inv hrun
+            exact pending_run s st0 c hst0 btok stok hd hz hz0 backB backS 399 s1 _ s' inv hrun
           cases handle_touch s s1 _ subs hh with
           | none h hm' _ _ =>
             rcases hm' with hm' | ⟨a, b, c', d, heq, ht⟩
@@ -951,8 +951,9 @@ theorem C04_pricing_op_never_lowers_rates_any_state (s : Sys) (m : Msg) (hop : P
 
 /-! ### Index updates arriving while a slash is still unrecognised
 
-  UpdateGlobalIndex, the dispatcher's DispatchRewards, BondRewards — and every still message — as
-  the top-level message, from any state (`Lemmas/RatePending`, second pending mode `PInvB`): until
+  UpdateGlobalIndex, the dispatcher's DispatchRewards, BondRewards, the registry's RemoveValidator and
+  Redelegations with the hub's RedelegateProxy and the Redelegate messages — and every still message —
+  as the top-level message, from any state (`Lemmas/RatePending`, second pending mode `PInvB`): until
   BondRewards runs, nothing that prices moves; if it never runs (no stSei-side rewards) the State
   query answers afterwards exactly what it answered before; if it runs it recognises the slash,
   prices with the pools the query had already reported, and only adds to the stSei pool. -/
@@ -976,14 +977,22 @@ theorem C04_index_update_never_lowers_rates_any_state (s : Sys) (m : Msg) (hop :
   · rename_i s' hrun
     simp only [] at h1 ⊢
     have inv : PInvB s s [m] :=
-      ⟨c, SamePools.refl s, btok, stok, bwf, swf, bhub, shub, fun x hx => by
+      ⟨c, SamePoolsW.refl s, btok, stok, bwf, swf, bhub, shub, fun x hx => by
         simp only [List.mem_singleton] at hx; subst hx; exact hop⟩
-    rcases pending_runB s st0 hst0 btok stok hd hz hz0 backB backS 400 s _ s' inv hrun with sp | key
+    rcases pending_runB s st0 c hst0 btok stok hd hz hz0 backB backS 400 s _ s' inv hrun with ⟨sp, ck⟩ | key
     · -- the slash is still pending and nothing that prices has moved
-      have := reportedRates_of_samePools s s' sp
-      rw [this, h0] at h1
+      have hsum : ((s'.hubEnv.delegations).map (·.2)).sum = ((s.hubEnv.delegations).map (·.2)).sum := by
+        rw [delegations_sum s' ck, delegations_sum s c, sp.total]
+      have hsup : s'.hubEnv.supplyOf = s.hubEnv.supplyOf := by
+        funext a
+        show s'.supplyOf a = s.supplyOf a
+        unfold Sys.supplyOf; rw [sp.bSupply, sp.sSupply]
+      obtain ⟨st', hst', _, _, q3, q4⟩ := actualState_transportW s.hub s'.hub s.hubEnv s'.hubEnv st0 hst0
+        sp.bBond sp.sBond sp.reqB sp.reqS sp.btok sp.stok sp.bRate sp.sRate hsum sp.ne hsup
+      unfold reportedRates at h1
+      rw [hst'] at h1
       injection h1 with h1; injection h1 with e1 e2
-      subst e1; subst e2
+      rw [← e1, ← e2, q3, q4]
       exact ⟨Or.inr (Nat.le_refl _), Or.inr (Nat.le_refl _)⟩
     · obtain ⟨k4, k5, k3, k6, k7, k8⟩ := key
       have concl := reported_conclusion st0 s' ⟨k4, k5, k3, k6, k7, k8⟩
@@ -1009,6 +1018,25 @@ theorem C04_index_update_never_lowers_rates_any_state (s : Sys) (m : Msg) (hop :
     injection h1 with h1; injection h1 with e1 e2
     subst e1; subst e2
     exact ⟨Or.inr (Nat.le_refl _), Or.inr (Nat.le_refl _)⟩
+
+/-- in particular a validator removal (or the follow-up Redelegations), with the redelegation of the
+    removed validator's stake and the index update it triggers, from any state -/
+theorem C04_validator_removal_never_lowers_rates_any_state (s : Sys) (sender v : Addr) (funds : List (Denom × Nat))
+    (follow : Bool) (c : ChainOK s)
+    (btok : s.hub.bsei = some bseiA) (stok : s.hub.stsei = some stseiA)
+    (bwf : s.bsei.WF) (swf : s.stsei.WF) (bhub : s.bsei.hub = hubA) (shub : s.stsei.hub = hubA)
+    (hd : s.delegationsOf hubA ≠ []) (hz : s.hub.bBond + s.hub.sBond ≠ 0)
+    (st0 : HubSt) (hst0 : s.hub.actualState s.hubEnv = .ok st0)
+    (hz0 : st0.bBond + st0.sBond ≠ 0)
+    (backB : Backed st0.bBond s.bsei.supply s.hub.reqB) (backS : Backed st0.sBond s.stsei.supply s.hub.reqS)
+    (rb' rs' : Nat)
+    (h1 : reportedRates (s.exec (.wasm sender regA (.reg (if follow then .redelegations v else .remove v)) funds)).1 = .ok (rb', rs')) :
+    ((s.exec (.wasm sender regA (.reg (if follow then .redelegations v else .remove v)) funds)).1.bsei.supply +
+        (s.exec (.wasm sender regA (.reg (if follow then .redelegations v else .remove v)) funds)).1.hub.reqB = 0 ∨ st0.bRate ≤ rb') ∧
+    ((s.exec (.wasm sender regA (.reg (if follow then .redelegations v else .remove v)) funds)).1.stsei.supply +
+        (s.exec (.wasm sender regA (.reg (if follow then .redelegations v else .remove v)) funds)).1.hub.reqS = 0 ∨ st0.sRate ≤ rs') :=
+  (C04_index_update_never_lowers_rates_any_state s _ (by cases follow <;> rfl) c btok stok bwf swf bhub shub hd hz
+    st0 hst0 hz0 backB backS rb' rs' h1).2
 
 /-! ### CheckSlashing, slash pending or not
 
